@@ -1,8 +1,66 @@
 /-
-  C08 — theorems are being added (see DESIGN.md §7 C08)
+  C08 — commit releases exactly the unused part of the pre-authorisation.
 -/
 import ZvtVerif.Client
 namespace Zvt.C08
 open Zvt
+
+/-- `usize::saturating_sub` on machine integers: `a - b` if that is not negative, else 0. Written with the
+machine-level case split so that the theorem below has content. -/
+def satSub64 (a b : Nat) : Nat := if b ≤ a then a - b else 0
+
+/-- the released amount is the pre-authorised amount minus the final amount, zero when the final amount
+is larger: never negative, never wrapped, never more than what was reserved — for all 64-bit inputs. -/
+theorem reversal_amount (pre final : Nat) :
+    reversalAmount pre final = satSub64 pre final ∧ reversalAmount pre final ≤ pre ∧
+    (final ≤ pre → reversalAmount pre final + final = pre) ∧ (pre ≤ final → reversalAmount pre final = 0) := by
+  unfold reversalAmount satSub64
+  refine ⟨?_, ?_, ?_, ?_⟩
+  · split <;> omega
+  · omega
+  · intro h; omega
+  · intro h; omega
+
+theorem reversal_amount_fits (pre final : Nat) (h : pre < 10 ^ 12) : reversalAmount pre final < 10 ^ 12 := by
+  unfold reversalAmount; omega
+
+/-- The partial-reversal request of `commit` is built from exactly: the reservation's receipt number, the
+released amount, payment type 0x40, the configured currency and the reference `AC` ‖ token. -/
+theorem commit_request_fields (cfg : Cfg) (token : List Nat) (receipt final : Nat) :
+    commitCmd cfg token receipt final =
+      encodeReq "packets::PartialReversal" (.struct [.some (.num receipt), .some (.num (reversalAmount cfg.amount final)),
+        .some (.num 0x40), .some (.num cfg.currency),
+        .some (.struct [.some (.struct [.str [65, 67], .str token])])]) := rfl
+
+/-- Reservations are always requested for the configured amount and currency, with the same reference. -/
+theorem reservation_request_fields (cfg : Cfg) (token : List Nat) :
+    reservationCmd cfg token =
+      encodeReq "packets::Reservation" (.struct [.some (.num cfg.amount), .some (.num cfg.currency), .some (.num 0x40),
+        .none, .none, .none, .none, .none, .none, .none, .none, .none, .none,
+        .some (.struct [.some (.struct [.str [65, 67], .str token])])]) := rfl
+
+/-- the layout these requests are encoded with is the specification's (positions of the fields used above). -/
+theorem request_layouts :
+    (findStructG "packets::PartialReversal").fields.map (·.name) = ["receipt_no", "amount", "payment_type", "currency", "tlv"] ∧
+    (findStructG "packets::Reservation").fields.map (·.name) =
+      ["amount", "currency", "payment_type", "expiry_date", "card_number", "track_2_data", "timeout", "maximum_no_of_status_info",
+       "pump_no", "trace_number", "aid_authorization_attribute", "additional_text", "zvt_card_type", "tlv"] ∧
+    (findStructG "packets::PreAuthReversal").fields.map (·.name) = ["payment_type", "currency", "receipt_no"] := by
+  decide +kernel
+
+/-- the summary is the projection of the last status information. -/
+theorem summary_fields (v : Val) :
+    (summaryOf v).amount = numOf (fieldOf statusStruct v "amount") ∧
+    (summaryOf v).trace = numOf (fieldOf statusStruct v "trace_number") ∧
+    (summaryOf v).date = numOf (fieldOf statusStruct v "date") ∧
+    (summaryOf v).time = numOf (fieldOf statusStruct v "time") ∧
+    (summaryOf v).terminalId = numOf (fieldOf statusStruct v "terminal_id") := ⟨rfl, rfl, rfl, rfl, rfl⟩
+
+/-- bytes on the wire for a concrete commit (2500 reserved, 100 final, EUR, receipt 11, token "a"):
+the amount field carries 000000002400. -/
+example : commitCmd { maxTx := 1, amount := 2500, currency := 978, password := 0, readCardTimeout := 15, serial := [], terminalId := [] } [97] 11 100 =
+    [0x06, 0x23, 0x1c, 0x87, 0x00, 0x11, 0x04, 0x00, 0x00, 0x00, 0x00, 0x24, 0x00, 0x19, 0x40, 0x49, 0x09, 0x78,
+     0x06, 0x0b, 0xe9, 0x09, 0x1f, 0x62, 0x02, 0x41, 0x43, 0x1f, 0x63, 0x01, 0x61] := by
+  decide +kernel
 
 end Zvt.C08
